@@ -135,6 +135,7 @@ func (e *engine) sweepContract(fn *ssa.Function) *funcContract {
 	}
 	if real := e.contractFor(fn); real != nil {
 		fc.lockHandoff = real.lockHandoff
+		fc.waitsHolding = real.waitsHolding
 		fc.holds = real.holds
 		fc.readsUnlocked = real.readsUnlocked
 		fc.setupOnly = real.setupOnly
